@@ -31,6 +31,16 @@ Arguments ois0 {A} _ _. Arguments opos {A} _ _. Arguments olnx {A} _ _.
 
 Definition pyv (A : Type) : Type := res (option A).
 
+(* everything a generated definition depends on: the arithmetic, the two integrals of the
+   heat-capacity handle of a phase (I = integral of Cn, J = integral of Cn/T), and the gas constant *)
+Record env (A : Type) : Type := mkEnv {
+  eO : Ops A;
+  eI : phase -> A -> A -> res A;
+  eJ : phase -> A -> A -> res A;
+  eR : A
+}.
+Arguments eO {A} _. Arguments eI {A} _ _ _ _. Arguments eJ {A} _ _ _ _. Arguments eR {A} _.
+
 (* what thermosteam keeps per chemical and hands to Chemical._init_energies *)
 Record chemdata (A : Type) : Type := mkChem {
   d_T_ref : option A; d_P_ref : option A; d_H_ref : option A;   (* class attributes of Chemical *)
